@@ -381,6 +381,16 @@ def run_biogeme_mode(c, spec, V, info, db, R, B, weighted):
                         continue
                     obs += decide(c, eqs, tag)
         if R.n > 0:
+            # a result that the caller keeps is not changed by a later evaluation at another point
+            tag = f'cl&d[kept result, later call elsewhere, w{int(weighted)}]'
+            try:
+                kept = b.calculate_likelihood_and_derivatives(xs, scaled=False, hessian=True, bhhh=True)
+                b.calculate_likelihood_and_derivatives([x + 1 for x in xs], scaled=False, hessian=True, bhhh=True)
+                obs += decide(c, collect(_only(kept, True, True), R, (True, True, True), True, False, weights, scale=None), tag)
+            except symx.PathAbort:
+                raise
+            except Exception as e:  # noqa: BLE001
+                obs.append((f'{tag}:no-exception', 'exc', f'{type(e).__name__}: {e}', None))
             tag = f'NegativeLikelihood[w{int(weighted)}]'
             try:
                 nl = NegativeLikelihood(dimension=R.n, like=b.calculate_likelihood,
@@ -636,6 +646,13 @@ def concrete_run(case):
                                     scale=float(N) if scaled else None), tag)
                     guarded(call, tag)
         if R.n:
+            def call():
+                kept = b.calculate_likelihood_and_derivatives(xs, scaled=False, hessian=True, bhhh=True)
+                b.calculate_likelihood_and_derivatives([x + 1 for x in xs], scaled=False, hessian=True, bhhh=True)
+                cmp(collect(_only(kept, True, True), R, (True, True, True), True, False, weights, scale=None),
+                    f'cl&d[kept result, later call elsewhere, w{int(weighted)}]')
+            guarded(call, 'kept result')
+
             def call():
                 nl = NegativeLikelihood(dimension=R.n, like=b.calculate_likelihood,
                                         like_derivatives=b.calculate_likelihood_and_derivatives, parameters=None)
